@@ -1,2 +1,5 @@
 #![feature(step_trait)]
 pub mod vcore;
+pub mod vnode;
+pub mod explore;
+pub mod model;
